@@ -9,11 +9,11 @@ def c04_nontrivial(inp, obs):
         return False
     tags = _c04_results(obs)
     ops = [o[0] for o in inp[1]]
-    ins_ok = any(op in (0, 8, 9) and t == 0 for op, t in zip(ops, tags))
+    ins_ok = any(op in (0, 8, 9, 17) and t == 0 for op, t in zip(ops, tags))
     err = any(t in (4, 5) for t in tags)
     return ins_ok and err
 
-OPN = ['push', 'pop', 'pop2', 'pop3', 'top', 'top2', 'top3', 'discard', 'push_many', 'try_extend', 'set_max', 'size', 'is_empty', 'is_full', 'max', 'try_extend(iterator without upper size hint)', 'push_many(exact-size iterator of claimed length)']
+OPN = ['push', 'pop', 'pop2', 'pop3', 'top', 'top2', 'top3', 'discard', 'push_many', 'try_extend', 'set_max', 'size', 'is_empty', 'is_full', 'max', 'try_extend(iterator without upper size hint)', 'push_many(exact-size iterator of claimed length)', 'try_extend_from_slice', 'try_extend(iterator that resumes after its first None)']
 RESN = {0: 'ok', 1: 'values', 2: 'number', 3: 'bool', 4: 'underflow', 5: 'overflow', 9: 'panic'}
 
 def c04_bucket(inp, obs):
@@ -46,7 +46,7 @@ PROPS = {
         corr='CorrC04', judge='(judge_cases judge)', show='(show_cases show [])',
         coq_targets=['theories/Props/C04.vo', 'theories/Corr/CorrC04.vo'],
         nontrivial=c04_nontrivial, bucket=c04_bucket, describe=c04_describe, classify=c04_classify,
-        rule='random operation histories on the real Stack<T> (T = i64, bool, String; length <= 40; capacity 0..8 set and changed mid-history; both bulk forms, also longer than the free space; try_extend from an exact-size-hint iterator and from one that reports no upper bound; push_many from an exact-size iterator of a claimed length near usize::MAX where it cannot fit) plus all histories of length <= 3 (quick) / 4 (thorough) over an 11-operation alphabet at capacities 0,1,2; after every operation the result and the full contents (clone + pop all) and max_stack_size are recorded and compared in Coq with the LIFO model. Non-trivial = the history contains a successful insertion and an underflow/overflow error; distinct = distinct histories.',
+        rule='random operation histories on the real Stack<T> (T = i64, bool, String; length <= 40; capacity 0..8 set and changed mid-history; both bulk forms, also longer than the free space; try_extend from an exact-size-hint iterator, from one that reports no upper bound and from one that is not fused (it resumes after its first None: all of what it offered before, or nothing and Overflow), try_extend_from_slice; push_many from an exact-size iterator of a claimed length near usize::MAX where it cannot fit) plus all histories of length <= 3 (quick) / 4 (thorough) over a 13-operation alphabet at capacities 0,1,2; after every operation the result and the full contents (clone + pop all) and max_stack_size are recorded and compared in Coq with the LIFO model. Non-trivial = the history contains a successful insertion and an underflow/overflow error; distinct = distinct histories.',
         trusted=['finite iterators only (an infinite iterator handed to try_extend is not a Coq list)'],
         level_text='Theorems (Props/C04.v): the Vec-level transcription of stack.rs refines an abstract all-or-nothing LIFO over every history of operations (induction on the history), with LIFO order, bulk order, exact discard, error => unchanged stack, underflow payload, and `a successful insertion never exceeds the current maximum` without assuming the stack was within its maximum. Tied to the code by running recorded histories of the real Stack<T> against the model inside coqc.',
         level_note='Trusted: Coq kernel + vm_compute; the Rust harness and Python driver; finite iterators only; contents observed via clone+pop.',
@@ -147,6 +147,8 @@ def push_describe(inp, obs):
         st[0], ' '.join(instr_name(p) for p in st[1]), st[2], st[3], st[4], st[5], st[6], st[7], st[8], st[9])
     if inp[0] == 1:
         return 'perform %s on state {%s}; stacks are top first' % (instr_name(inp[3]), d)
+    if inp[0] == 2:
+        return 'run_to_completion, look at the printed output (stdout_string on the state itself), run_to_completion again - of state {%s}; stacks are top first' % d
     return 'run_to_completion of state {%s}; stacks are top first' % d
 
 def _walk_instrs(t, acc):
@@ -160,7 +162,7 @@ def _walk_instrs(t, acc):
                 _walk_instrs(t[1], acc)
 
 def push_bucket(inp, obs):
-    out = ['mode=%s' % ('run' if inp[0] == 0 else 'perform')]
+    out = ['mode=%s' % ('run' if inp[0] == 0 else 'two-phase run' if inp[0] == 2 else 'perform')]
     cls = obs[0] if isinstance(obs, list) and obs else None
     out.append('outcome=%s' % {0: 'ok', 1: 'recoverable', 2: 'fatal', -1: 'panic', -2: 'abort', -3: 'hang'}.get(cls, cls))
     if inp[0] == 1:
@@ -187,7 +189,7 @@ def push_classify(inp, obs):
     acc = []
     for p in inp[2][1]:
         _walk_instrs(p, acc)
-    return 'run'
+    return 'run' if inp[0] == 0 else 'two-phase-run'
 
 def push_cov_extra(inputs, obs, verdicts):
     per = {}
@@ -207,7 +209,7 @@ _PUSH_COMMON = dict(corr='CorrPush', show='(show_cases show [])', post_batch=pus
 PROPS['C01'] = dict(_PUSH_COMMON,
     judge='(judge_cases judge_c01)',
     coq_targets=['theories/Props/C01.vo', 'theories/Corr/CorrPush.vo'],
-    rule='(a) every non-literal instruction applied (Instruction::perform) to states whose operand positions run over boundary value lists (23 i64 values incl. MIN/MAX/2^32/sqrt boundaries; 22 f64 bit patterns incl. NaNs, infinities, signed zeros, subnormal, 2^53+1, i64 range edges): sampled pairs in the quick tier, all pairs in the thorough tier; (b) literals/blocks/input variables as single steps; (c) random nested programs (5-45 elements, nested blocks and exec literals to depth 5, bound input variables, random initial stacks, capacities from exactly-full upwards, step limits 0-150/400) through State::run_to_completion. All four stacks, capacities, printed bytes and the outcome class/error kind are compared with Spec/Run evaluated in coqc. Non-trivial: every single-step case; a run whose program has >= 3 elements and step limit >= 3. Distinct = distinct inputs.',
+    rule='(a) every non-literal instruction applied (Instruction::perform) to states whose operand positions run over boundary value lists (23 i64 values incl. MIN/MAX/2^32/sqrt boundaries; 22 f64 bit patterns incl. NaNs, infinities, signed zeros, subnormal, 2^53+1, i64 range edges): sampled pairs in the quick tier, all pairs in the thorough tier; (b) literals/blocks/input variables as single steps; (c) random nested programs (5-45 elements, nested blocks and exec literals to depth 5, bound input variables, random initial stacks, capacities from exactly-full upwards, step limits 0-150/400) through State::run_to_completion; (d) two-phase runs: a printing program under every step limit 0..14, and every fifth random program, is run until its limit, its printed output is LOOKED AT on the state itself (stdout_string), and it is run on from there - compared with running the model twice (looking at the output must not disturb it). All four stacks, capacities, printed bytes and the outcome class/error kind are compared with Spec/Run evaluated in coqc. Non-trivial: every single-step case; a run whose program has >= 3 elements and step limit >= 3. Distinct = distinct inputs.',
     trusted=['Rust std f64 Display as the float-to-text oracle (second harness pass)', 'primitive floats of the Coq kernel (hardware binary64) for float instructions'],
     assumptions=['when an operand is missing AND the destination is full either report is accepted (run_alts)', 'PrintString contents limited to the case string table'],
     level_text='Theorems (Props/C01.v) over the executable semantics table Spec.v and the interpreter Run.v: per-clause theorems for ALL operand values (top-op-second arithmetic, /0 -> 1, %0 -> 0, overflow skips, saturating negate/abs, mathematical predicates that consume all operands incl. parity of negatives, conditional action tables, block unfolding order, checked_pow = mathematical power with range test). The instruction set is also modelled as the Rust composes it (Impl.v: pops, pushes, pre-checks, discards) and proved equal to the table on well-formed states, as is the interpreter loop over it (C01_refine, C01_run). The real PushState is tied to the table by differential execution of every instruction on boundary values and of random nested programs, judged inside coqc.',
@@ -309,7 +311,9 @@ C15_KINDS = {0: 'Score', 1: 'Error', 2: 'TestResult', 3: 'TestResults<Score>', 4
              12: 'EcIndividual over a single TestResult [[genome, [0 score/1 error, value]], ..]',
              13: 'TestResults over f64 results [0 Score / 1 Error, [bit patterns]] -> [total bits, result bits..]',
              14: 'Score / Error at another integer type [type 0 i8 / 1 u8 / 2 i32 / 3 u64 / 4 i128 / 5 usize, 0 Score / 1 Error, x, y]',
-             15: 'totals at another integer type [type, results] -> [Score total, Error total, results..]'}
+             15: 'totals at another integer type [type, results] -> [Score total, Error total, results..]',
+             16: 'comparison of f64 result collections [0 scores / 1 errors / 2 individuals, bit patterns, bit patterns]',
+             17: 'is there a total order (Ord) on TestResult? -> [TestResult is Ord, cmp of a score with an error (2 = none), control: i64 is Ord, cmp 1 2]'}
 def c15_describe(inp, obs):
     return '%s on %s  -- observed [lt,le,gt,ge,eq,ne,cmp,partial_cmp] (cmp: -1 less, 0 equal, 1 greater, 2 n/a) or [total, results...]' % (C15_KINDS.get(inp[0]), inp[1:])
 PROPS['C15'] = dict(
@@ -317,7 +321,7 @@ PROPS['C15'] = dict(
     coq_targets=['theories/Props/C15.vo', 'theories/Corr/CorrC15.vo'],
     describe=c15_describe, bucket=lambda i, o: ['type=%s' % C15_KINDS.get(i[0])], classify=lambda i, o: 'order:%s' % C15_KINDS.get(i[0]),
     nontrivial=lambda i, o: True,
-    rule='all ordered pairs over {MIN, MIN+1, -2, -1, 0, 1, 2, MAX-1, MAX} for Score<i64>, Error<i64>, TestResult<i64,i64> (all four tag combinations) and singleton TestResults; random result vectors incl. empty, reversed, equal-total-different-cases; EcIndividual pairs with equal and different genomes; TestResults::from / collect (results and total fields read back); GenomeScorer and IndividualGenerator with a probe genome maker and an FnScorer; min / max (method and free function) / clamp / Iterator::max / Iterator::min over boundary triples; clone_from (directly and through Vec::clone_from); individuals scored by a single score-or-error TestResult (only partially ordered); the operators and totals at i8 / u8 / i32 / u64 / i128 / usize result types over the boundary values of each type; f64 results (vectors of 0..70 values of very different magnitudes, total compared bit for bit with the left-to-right sum computed with Coq primitive floats). All of <, <=, >, >=, ==, !=, cmp, partial_cmp are observed and compared with Order.v in coqc. Every case is non-trivial; distinct inputs counted.',
+    rule='all ordered pairs over {MIN, MIN+1, -2, -1, 0, 1, 2, MAX-1, MAX} for Score<i64>, Error<i64>, TestResult<i64,i64> (all four tag combinations) and singleton TestResults; random result vectors incl. empty, reversed, equal-total-different-cases; EcIndividual pairs with equal and different genomes; TestResults::from / collect (results and total fields read back); GenomeScorer and IndividualGenerator with a probe genome maker and an FnScorer; min / max (method and free function) / clamp / Iterator::max / Iterator::min over boundary triples; clone_from (directly and through Vec::clone_from); individuals scored by a single score-or-error TestResult (only partially ordered); the operators and totals at i8 / u8 / i32 / u64 / i128 / usize result types over the boundary values of each type; f64 results (vectors of 0..70 values of very different magnitudes, total compared bit for bit with the left-to-right sum computed with Coq primitive floats; all comparison operators on collections and individuals whose totals may be NaN - incomparable); a method-resolution probe that TestResult offers no total order (a score is never comparable to an error). All of <, <=, >, >=, ==, !=, cmp, partial_cmp are observed and compared with Order.v in coqc. Every case is non-trivial; distinct inputs counted.',
     trusted=[], assumptions=['partial sums stay inside i64 (Iterator::sum overflow is Rust arithmetic: panics in debug, wraps in release) - outside the property domain, see DESIGN C15'],
     level_text='Theorems (Props/C15.v): Score is a lawful ascending total order, Error the reversed one (reflexive, antisymmetric, transitive, total, cmp b a = CompOpp (cmp a b)), the four comparison operators are consistent with the three-way comparison, a score is never comparable to an error, TestResults and individuals compare exactly as their totals (the genome is never consulted), the total is the sum of the cases kept in order (for floating-point results: the left-to-right sum, which no regrouping of the cases reproduces), and scoring a genome yields that genome with the scorer result. Tied to the code by observing all eight operators on boundary and random values.',
     level_note='Trusted: Coq kernel; harness+driver. `==` on aggregates is structural (derived), ordering is by total - as the code and the property say.',
@@ -362,7 +366,7 @@ PROPS['C14'] = dict(
     describe=c14_describe, nontrivial=c14_nontrivial, no_shrink=True,
     bucket=lambda i, o: ['shape=%d' % i[0], 'outcome=%s' % ('ok' if isinstance(o, list) and len(o) == 5 and o[2][0] == 0 else 'err')],
     classify=lambda i, o: 'shape-%d' % i[0],
-    rule='40 composition shapes covering then / and / map over tuple, array and vector / then_map / Composable::map / apply_twice / apply_n_times (0, 2, 3) / Identity / Constant / Mutate, Recombine, Select by value, by reference and around boxed / borrowed type-erased operators / GenomeExtractor, nested up to depth 4, built from probe operators that draw one word from the supplied generator (odd-numbered probes by a 32-bit draw whose provenance from the supplied generator is checked, the others by a 64-bit draw), log (probe id, input seen, word) and fail on command; failure injected at every probe call 0..11 and none; 4 (quick) / 25 (thorough) word streams each. Result, error path (parsed from Debug), call log and number of words consumed are compared with the interpretation of the same shape through Compose.v in coqc. Non-trivial: at least two probe calls happened.',
+    rule='40 composition shapes covering then / and / map over tuple, array and vector / then_map / Composable::map / apply_twice / apply_n_times (0, 2, 3) / Identity / Constant / Mutate, Recombine, Select by value, by reference and around boxed / borrowed type-erased operators / GenomeExtractor, nested up to depth 4, built from probe operators that draw one word from the supplied generator (odd-numbered probes by a 32-bit draw whose provenance from the supplied generator is checked, the others by a 64-bit draw), log (probe id, input seen, word) and fail on command; failure injected at every probe call 0..11 and none; 4 (quick) / 25 (thorough) word streams each. Result, error path (read structurally off the Debug form; the messages along the source chain must not name another part or element than the one that failed), call log and number of words consumed are compared with the interpretation of the same shape through Compose.v in coqc. Non-trivial: at least two probe calls happened.',
     trusted=['error paths are read from the derived Debug rendering of ThenError/AndError/MapError (their fields are private)'],
     assumptions=['composition shapes are a fixed hand-written family (Rust types are static)'],
     level_text='Theorems (Props/C14.v) for ARBITRARY component operators and any threaded state: then feeds the first result to the second; and applies both to the same input in order and pairs; map visits elements in index order and its error names the failing index with everything before it done and nothing after it run; repeat = N applications to copies; the first failing part fixes the final state (later parts neither run nor draw); identity/constant/wrappers add nothing; then is associative up to error re-nesting. Tied to the code by probe operators over an explicit word stream on 40 shapes x every failure position.',
@@ -381,16 +385,16 @@ C17_PTR = ['&', '&mut', 'RefMut', 'Box', 'Arc', 'Rc', 'Ref']
 C17_AUTO = ['', '+Send', '+Sync', '+Send+Sync']
 def c17_describe(inp, obs):
     return '%s behind %s<dyn %s%s>, seed %d, data %s; observed [concrete outcome, next word, erased outcome, next word]' % (
-        C17_IMPLS[inp[0]][inp[1]], C17_PTR[inp[2] // 4], C17_TRAITS[inp[0]], C17_AUTO[inp[2] % 4], inp[3], inp[4])
+        C17_IMPLS[inp[0]][inp[1]], C17_PTR[(inp[2] % 28) // 4], C17_TRAITS[inp[0]], C17_AUTO[inp[2] % 4] + (' (method-call syntax)' if inp[2] >= 28 else ''), inp[3], inp[4])
 PROPS['C17'] = dict(
     corr='CorrC17', judge='(judge_cases judge)',
     coq_targets=['theories/Props/C17.vo', 'theories/Corr/CorrC17.vo'],
     describe=c17_describe, no_shrink=True,
     nontrivial=lambda i, o: True,
-    bucket=lambda i, o: ['trait=%s' % C17_TRAITS[i[0]], 'pointer=%s' % C17_PTR[i[2] // 4], 'auto=%s' % (C17_AUTO[i[2] % 4] or 'none'),
+    bucket=lambda i, o: ['trait=%s' % C17_TRAITS[i[0]], 'pointer=%s' % C17_PTR[(i[2] % 28) // 4], 'auto=%s' % (C17_AUTO[i[2] % 4] or 'none'), 'syntax=%s' % ('method call' if i[2] >= 28 else 'explicit impl'),
                          'outcome=%s' % ('ok' if isinstance(o, list) and len(o) == 4 and o[0][0] == 0 else 'err')],
-    classify=lambda i, o: '%s/%s' % (C17_TRAITS[i[0]], C17_PTR[i[2] // 4]),
-    rule='all five erasable traits x all 28 generated pointer flavours (7 pointer kinds x {none, Send, Sync, Send+Sync}) x 3-5 wrapped implementations each (library selectors, mutators, recombinators, composed operators, child makers, and one failing implementation per trait) x 2 (quick) / 12 (thorough) seeded inputs incl. empty populations and length-mismatched parents (error paths). The concrete call and the erased call start from clones of one generator; the selected index (pointer identity) / genome / value, the error (its message, its debug form and the messages of its whole source chain - the erased error must still be the error of the wrapped implementation, not a rendering of it) and the next word of each generator are compared; the 32-bit draws of the generator are neither half of its 64-bit draws, so an adapter deriving one from the other shows. A flavour that stops compiling breaks the harness build (reported as broken correspondence). Every case is non-trivial.',
+    classify=lambda i, o: '%s/%s' % (C17_TRAITS[i[0]], C17_PTR[(i[2] % 28) // 4]),
+    rule='all five erasable traits x all 28 generated pointer flavours (7 pointer kinds x {none, Send, Sync, Send+Sync}), each called both through the generated impl named explicitly and with method-call syntax (where an inherent method on the trait object would win), x 3-5 wrapped implementations each (library selectors, mutators, recombinators, composed operators, child makers, and one failing implementation per trait) x 2 (quick) / 12 (thorough) seeded inputs incl. empty populations and length-mismatched parents (error paths). The concrete call and the erased call start from clones of one generator; the selected index (pointer identity) / genome / value, the error (its message, its debug form and the messages of its whole source chain - the erased error must still be the error of the wrapped implementation, not a rendering of it) and the next word of each generator are compared; the 32-bit draws of the generator are neither half of its 64-bit draws, so an adapter deriving one from the other shows. A flavour that stops compiling breaks the harness build (reported as broken correspondence). Every case is non-trivial.',
     trusted=['error identity is observed as message + debug form + source-chain messages of the boxed error'],
     assumptions=['thin model by design: the property says the layer adds nothing'],
     level_text='Theorems (Props/C17.v): erase into f returns the same value, the image of the same error, and leaves the threaded state (random stream) exactly as f does, for every f; pointer flavours are the identity on behaviour; erasing twice composes the conversions. Tied to the code by instantiating every generated flavour of every erasable trait around concrete implementations and comparing with the concrete call from a cloned generator.',
@@ -425,7 +429,7 @@ PROPS['C10'] = dict(
     describe=c10_describe, classify=c10_classify,
     nontrivial=lambda i, o: len(i[1]) >= 1 or len(i[2]) >= 1 or i[0] >= 10,
     bucket=lambda i, o: ['op=%s' % C10_KINDS[i[0]], 'len=%d/%d' % ((len(i[1]), len(i[2])) if i[0] < 10 else (i[4], i[4])), 'outcome=%s' % ({0: 'ok', 1: 'error', -1: 'panic'}.get(o[0] if isinstance(o, list) and o else None, '?'))],
-    rule='TwoPointXo and UniformXo in all four argument forms ([Vec;2], (Vec,Vec), [Bitstring;2], (Bitstring,Bitstring)), plus byte genes ([Vec<u8>;2]) and string genes ((Vec<String>,Vec<String>)) through the generic vector impls, on position-tagged (vectors) / complementary (bitstrings) parents of length 0..6, 3000 (quick) / 50000 (thorough) seeded draws each: every child must lie in the model support (exact, per draw) and - where the rarest child has probability >= 1/64 - every child of the support must have been drawn (all (n+1)(n+2)/2 segments incl. those touching either end; all 2^n masks for n <= 5); parents of different lengths both ways (error expected); complementary parents of 65..200 genes in all four forms - every two-point child must take one contiguous segment from the second parent, uniform children seen through positions a machine word apart / neighbouring / far apart must show every combination; crossover_gene / crossover_segment exhaustively over lengths 0..4 (5 thorough) of both genomes x indices 0..7 x all ranges incl. reversed and out-of-range, result and both genomes afterwards. Every returned error is rendered (message, debug form, source chain). Everything is repeated in the release build. Non-trivial: non-empty parents.',
+    rule='TwoPointXo and UniformXo in all four argument forms ([Vec;2], (Vec,Vec), [Bitstring;2], (Bitstring,Bitstring)), plus byte genes ([Vec<u8>;2]) and string genes ((Vec<String>,Vec<String>)) through the generic vector impls, on position-tagged (vectors) / complementary (bitstrings) parents of length 0..6, 3000 (quick) / 50000 (thorough) seeded draws each: every child must lie in the model support (exact, per draw) and - where the rarest child has probability >= 1/64 - every child of the support must have been drawn (all (n+1)(n+2)/2 segments incl. those touching either end; all 2^n masks for n <= 5); parents of different lengths both ways (error expected); complementary parents of 65..200 genes in all four forms - every two-point child must take one contiguous segment from the second parent, uniform children seen through positions a machine word apart / neighbouring / far apart must show every combination; crossover_gene / crossover_segment exhaustively over lengths 0..4 (5 thorough) of both genomes x indices 0..7 x all ranges incl. reversed and out-of-range, plus indices and range ends at the top of usize, result and both genomes afterwards. Every returned error is rendered (message, debug form, source chain). Everything is repeated in the release build. Non-trivial: non-empty parents.',
     trusted=['rand::Rng::random_range / random::<bool> as oracles: only their support is used here'],
     assumptions=['the cut-point DISTRIBUTION is not pinned by the property (only which segments can occur)', 'completeness of the support is judged from a finite sample: miss probability < 1e-20 per case'],
     level_text='Theorems (Props/C10.v) about the support model: a two-point child has the parents length, is position-wise parental and takes ONE contiguous segment from the second parent; every segment 0 <= lo <= hi <= n is possible (both ends); empty parents give the empty child; uniform children are position-wise parental and every mask is possible; unequal lengths are errors; the exchange primitives swap exactly the addressed genes or report an error (reversed / out-of-range), never panic. Tied to the code by exact per-draw support membership, observed completeness of the support, and exhaustive exchange arguments.',
@@ -551,6 +555,7 @@ def sel_str(t):
     if k == 3: return 'Tournament(%d)' % t[1]
     if k == 4: return 'Lexicase(%d)' % t[1]
     if k == 9: return 'probe(%s)' % sel_str(t[1])
+    if k == 10: return 'chain built by %s with weights %s over probed best/worst/random' % (['one expression of with_item_and_weight', 'with_item_and_weight, unwrapped after every step', 'one expression of with_weighted_item', 'with_weighted_item, unwrapped after every step'][t[1]], t[2])
     if k == 5: return 'Weighted(%s, %d)' % (sel_str(t[2]), t[1])
     if k == 6: return 'Pair(%s, %s)' % (sel_str(t[1]), sel_str(t[2]))
     if k == 7: return 'end'
@@ -563,7 +568,7 @@ def sel_describe(inp, obs):
         sel_str(p[2]), p[1], ('scores' if p[0] % 2 else 'errors') + (', neighbouring individuals share a genome' if p[0] >= 2 else ''), inp[1], inp[0])
 
 def sel_kind(t):
-    return {0: 'best', 1: 'worst', 2: 'random', 3: 'tournament', 4: 'lexicase', 5: 'weighted', 6: 'weighted-pair', 8: 'dyn-weighted', 9: 'probe'}.get(t[0], '?')
+    return {0: 'best', 1: 'worst', 2: 'random', 3: 'tournament', 4: 'lexicase', 5: 'weighted', 6: 'weighted-pair', 8: 'dyn-weighted', 9: 'probe', 10: 'built-chain'}.get(t[0], '?')
 
 def sel_bucket(inp, obs):
     p = inp[2]
@@ -584,7 +589,7 @@ _SEL_COMMON = dict(corr='CorrSelect', judge='(judge_cases judge)', describe=sel_
 PROPS['C06'] = dict(_SEL_COMMON, post_batch=make_stat_post('C06', sel_obs_code, sel_hist_of),
     coq_targets=['theories/Props/C06.vo', 'theories/Corr/CorrSelect.vo'],
     nontrivial=lambda i, o: len(i[2][1]) >= 1,
-    rule='populations (empty, singleton, all-equal, duplicate-laden, ragged with missing cases, random; up to 8 individuals; and one of 300 individuals under best / worst / random / tournament / lexicase / weighted combinations) x selector configurations (best, worst, random, tournament sizes 1..n+2, lexicase case counts 0..4 - smaller/equal/larger than the results available -, weighted trees of depth <= 2 and dynamic lists, also nested in each other, weights incl. 0) x 60 (quick) / 400 (thorough) seeded draws. Each returned reference is located in the population by pointer identity; every observed outcome (index class or documented error) must have positive probability in the model law computed in coqc, and frequencies are compared as well. Non-trivial: non-empty population.',
+    rule='populations (empty, singleton, all-equal, duplicate-laden, ragged with missing cases, random; up to 8 individuals; and one of 300 individuals under best / worst / random / tournament / lexicase / weighted combinations; dynamic lists whose usize weights do not sum within usize: an error value on every selection) x selector configurations (best, worst, random, tournament sizes 1..n+2, lexicase case counts 0..4 - smaller/equal/larger than the results available -, weighted trees of depth <= 2 and dynamic lists, also nested in each other, weights incl. 0) x 60 (quick) / 400 (thorough) seeded draws. Each returned reference is located in the population by pointer identity; every observed outcome (index class or documented error) must have positive probability in the model law computed in coqc, and frequencies are compared as well. Non-trivial: non-empty population.',
     assumptions=['errors are classified through From conversions of the library error enums (no string matching)'],
     level_text='Theorems (Props/C06.v) by induction over a deep embedding of ALL selector combinations (best, worst, random, tournament, lexicase, weighted leaves and pairs nested arbitrarily, dynamic lists): every selected index is an index of the given population, an empty-population error occurs only for an empty population, and the selection distribution is total (mass 1: no stuck or panicking outcome exists in the model). An error is reported only in its documented situation, for every combination (C06_documented), and those situations are reported with certainty. Tied to the code by exact support membership of every draw (pointer identity).',
     level_note='Trusted: Coq kernel; harness+driver; rand primitives as oracles.',
@@ -611,7 +616,7 @@ PROPS['C08'] = dict(_SEL_COMMON, post_batch=make_stat_post('C08', sel_obs_code, 
 PROPS['C13'] = dict(_SEL_COMMON, post_batch=make_stat_post('C13', sel_obs_code, sel_hist_of),
     coq_targets=['theories/Props/C13.vo', 'theories/Corr/CorrSelect.vo'],
     nontrivial=lambda i, o: True,
-    rule='marker members (best / worst / random over a fixed population), each wrapped in a probe that counts how often it is used (members under a weight of zero: never; every selection that is not a zero-weight error: exactly one member - judged in coqc by probes_ok), combined in left-nested chains (the with_item_and_weight idiom), right-nested chains, random trees (depth <= 3) and the dynamic list with the same weights; weights from {0,1,2,3,7} and the u32 boundaries {0, 1, 2^31, 2^32-2, 2^32-1}, plus large weights (2^29..2^31) whose totals are far from a power of two and the largest total that fits; delegation frequencies against w/total computed in coqc; build-time WeightSumOverflow compared exactly, including which pair is reported and overflow earlier in the chain.',
+    rule='marker members (best / worst / random over a fixed population), each wrapped in a probe that counts how often it is used (members under a weight of zero: never; every selection that is not a zero-weight error: exactly one member - judged in coqc by probes_ok), combined in left-nested chains (the with_item_and_weight idiom), right-nested chains, random trees (depth <= 3) and the dynamic list with the same weights; weights from {0,1,2,3,7} and the u32 boundaries {0, 1, 2^31, 2^32-2, 2^32-1}, plus large weights (2^29..2^31) whose totals are far from a power of two and the largest total that fits; statically typed chains of 2..4 members built with the builder idioms (with_item_and_weight / with_weighted_item, in one expression on the Result or unwrapped after every step, incl. zero weights and u32 overflow); delegation frequencies against w/total computed in coqc; build-time WeightSumOverflow compared exactly, including which pair is reported and overflow earlier in the chain.',
     assumptions=['Bernoulli::from_ratio realises wa/(wa+wb) on a 2^-64 grid - below any observable resolution'],
     level_text='Theorems (Props/C13.v): for EVERY tree shape of weighted pairs a leaf is delegated to with probability weight/total (so nesting and construction order do not matter), zero-weight members are never used, a structure of total weight zero reports ZeroWeight with certainty, the dynamic list picks entry i with probability w_i / sum, and a chain is rejected at build time exactly when some partial sum reaches 2^32 (also when the overflow happened earlier). Tied to the code by delegation frequencies and exact build-time errors.',
     level_note='Trusted: Coq kernel; harness+driver; Bernoulli / choose_weighted as oracles.',
@@ -624,6 +629,7 @@ MUT_KINDS = {0: 'WithRate Vec<bool>', 1: 'WithRate Bitstring', 2: 'WithOneOverLe
              5: 'Umad Bitstring', 6: 'UniformXo', 7: 'Bitstring::random_with_probability', 8: 'Plushy GeneGenerator', 9: 'WithRate Vec<i64>', 10: 'Umad Plushy',
              11: 'long genome through two positions [op (0/1 WithRate Vec<bool>/Bitstring, 2/3/4 UniformXo [Bitstring;2]/[Vec<bool>;2]/(Bitstring,Bitstring), 5 random bitstring, 6 WithOneOverLength), length, i, j, rate num, rate den]; child = [changed at i, changed at j]',
              12: 'very long genome, all genes of all children pooled [op (0/1 WithOneOverLength Bitstring/Vec<bool>, 2/3 WithRate Bitstring/Vec<bool>), length, rate num, rate den]; cells [1] = flipped genes, [0] = unflipped genes',
+             14: 'UniformXo in every argument form [form 0 [Vec;2] / 1 (Vec,Vec) / 2 [Bitstring;2] / 3 (Bitstring,Bitstring), first parent, second parent]',
              13: 'whole random Plushy, one position [instructions, length, position, close kind, close num, close den]; child = [0] close / [i+1] instruction i'}
 def mut_code(inp, child):
     if inp[2][0] in (8, 13):
@@ -642,7 +648,7 @@ _MUT_COMMON = dict(corr='CorrMut', describe=mut_describe, no_shrink=True, classi
 PROPS['C11'] = dict(_MUT_COMMON, judge='(judge_cases judge_c11)',
     coq_targets=['theories/Props/C11.vo', 'theories/Corr/CorrMut.vo'],
     nontrivial=lambda i, o: True,
-    rule='Vec<bool>, Bitstring, Vec<i64> (bitwise-not genes), Vector<i64> with position-tagged genes and a disjoint new-gene alphabet, and Plushy genomes (tagged PushInt genes, new genes from a gene generator incl. close markers), lengths 0..12; flip rates {0, 1/4, 1/2, 1, 3/16, 15/16} and 1/len; UMAD addition/deletion rates incl. 0 and 1 and all three empty-genome modes; 1500 (quick) / 20000 (thorough) seeded draws per configuration. EVERY distinct child observed is judged in coqc by the shape predicate (length and per-position flip-or-keep; the UMAD language by a backtracking matcher; rate 0 = identity, flip rate >= 1 = all flipped, deletion 1 = empty, addition 1 / deletion 0 = exactly one new gene after every parent gene; empty parent: at most one new gene, none when disabled).',
+    rule='Vec<bool>, Bitstring, Vec<i64> (bitwise-not genes), Vector<i64> with position-tagged genes and a disjoint new-gene alphabet, and Plushy genomes (tagged PushInt genes, new genes from a gene generator incl. close markers), lengths 0..12; flip rates {0, 1/4, 1/2, 1, 3/16, 15/16, 3/2, 1000} and 1/len; UMAD addition/deletion rates incl. 0 and 1 and all three empty-genome modes; 1500 (quick) / 20000 (thorough) seeded draws per configuration. EVERY distinct child observed is judged in coqc by the shape predicate (length and per-position flip-or-keep; the UMAD language by a backtracking matcher; rate 0 = identity, flip rate >= 1 = all flipped, deletion 1 = empty, addition 1 / deletion 0 = exactly one new gene after every parent gene; empty parent: at most one new gene, none when disabled).',
     trusted=['rand primitives (random::<f32>, random_bool) as oracles: only their support matters here'],
     assumptions=['rates in [0,1] (the property quantifier); f32 rate granularity 2^-24'],
     level_text='Theorems (Props/C11.v) at support level in the distribution monad: a bit-flip child has the parent length and each gene is kept or negated; rate 0 is the identity and rate 1 flips everything (as equalities of event probabilities); every UMAD child lies in the language "per parent gene in order: optionally that gene, then optionally one gene from the generator"; an empty parent yields at most one new gene, none when disabled; deletion rate 1 yields the empty genome; addition 1 / deletion 0 keeps every gene followed by exactly one new gene. Tied to the code by evaluating the shape predicates in coqc on every child the real operators produced.',
@@ -652,7 +658,7 @@ PROPS['C11'] = dict(_MUT_COMMON, judge='(judge_cases judge_c11)',
 PROPS['C12'] = dict(_MUT_COMMON, judge='(judge_cases judge_c12)', post_batch=make_stat_post('C12', mut_code, mut_hist_of), cov_extra=stat_cov_extra,
     coq_targets=['theories/Props/C12.vo', 'theories/Corr/CorrMut.vo'],
     nontrivial=lambda i, o: True,
-    rule='FULL child distributions (every possible child is a cell): bit-flip at rates {1/16, 1/4, 1/2, 7/8} and 1/len for lengths 1..8 (Vec<bool> and Bitstring alternating); UMAD at (a,d) in {(1/8,1/8), (1/4,1/5), (1/2,1/4), (1,0), (0,1), (1/2,1/3)} on 0..3 tagged genes with a 2-gene alphabet and all empty-genome modes; uniform crossover for lengths 1..6; random bitstrings with p in {0, 1/8, 1/2, 7/8, 1}; Plushy gene generators over 1,2,3,5 instructions with the default (1/(n+1)) and explicit close probabilities, built through every constructor (into_ / to_gene_generator[_with_close_probability] on owned and borrowed instruction distributions, GeneGenerator::new and ::with_uniform_close_probability directly); genomes of 65..257 genes (bit-flip, 1/length flip, uniform crossover in every argument form, random bitstrings) judged through pairs of positions - neighbours and 32/63/64/65/128/256 apart - against the pair marginals proved in C12_flip_marginals / C12_bitstring_pairs / C12_uniform_xo_pairs; genomes of 2^16+1 .. 2^18 genes with the per-gene flip frequency pooled over all genes of all children (1/length and fixed small rates); whole random Plushy genomes observed at their first, an inner and their last position (collection_marginal: every position follows the gene law). 20000 (quick) / 400000 (thorough) seeded draws per configuration, compared cell by cell with the law computed from the model in coqc (independence and the new-genes-are-deleted-too clause are consequences of the joint law).',
+    rule='FULL child distributions (every possible child is a cell): bit-flip at rates {1/16, 1/4, 1/2, 7/8} and 1/len for lengths 1..8 (Vec<bool> and Bitstring alternating); UMAD at (a,d) in {(1/8,1/8), (1/4,1/5), (1/2,1/4), (1,0), (0,1), (1/2,1/3)} on 0..3 tagged genes with a 2-gene alphabet and all empty-genome modes; uniform crossover for lengths 1..6 (tagged vector parents, and complementary parents in all four argument forms); random bitstrings with p in {0, 1/8, 1/2, 7/8, 1}; Plushy gene generators over 1,2,3,5 instructions with the default (1/(n+1)) and explicit close probabilities, built through every constructor (into_ / to_gene_generator[_with_close_probability] on owned and borrowed instruction distributions, GeneGenerator::new and ::with_uniform_close_probability directly); genomes of 65..257 genes (bit-flip, 1/length flip, uniform crossover in every argument form, random bitstrings) judged through pairs of positions - neighbours and 32/63/64/65/128/256 apart - against the pair marginals proved in C12_flip_marginals / C12_bitstring_pairs / C12_uniform_xo_pairs; genomes of 2^16+1 .. 2^18 genes with the per-gene flip frequency pooled over all genes of all children (1/length and fixed small rates); whole random Plushy genomes observed at their first, an inner and their last position (collection_marginal: every position follows the gene law). 20000 (quick) / 400000 (thorough) seeded draws per configuration, compared cell by cell with the law computed from the model in coqc (independence and the new-genes-are-deleted-too clause are consequences of the joint law).',
     trusted=['rand primitives as oracles', 'statistical tie: Bernstein threshold with delta = 1e-12 per cell, one 10x re-sample before a cell counts; zero-probability children are an exact violation'],
     assumptions=['all rates are dyadic-representable or small rationals; f32/f64 granularity of the rates is far below the test resolution'],
     level_text='Theorems (Props/C12.v) in Q: the bit-flip child distribution is the product law r^h (1-r)^(n-h) (hence independent flips), r n expected flips and exactly one for the 1/length variant; UMAD expected child size n (1-d)(1+a) - new genes being deletable too - and size neutrality at d = a/(1+a); uniform crossover masks are uniform (each position 1/2, independently); random bitstrings follow the product Bernoulli law; a random Plushy gene is a close marker with probability c and otherwise drawn from the instruction distribution, and with the default c = 1/(n+1) all n+1 outcomes are equally likely. Tied to the code by comparing full empirical child distributions with the model law.',
@@ -664,7 +670,8 @@ PROPS['C12'] = dict(_MUT_COMMON, judge='(judge_cases judge_c12)', post_batch=mak
 # C18
 C18_FL = ['Vec into->T', '&Vec into->&T', '&Vec into->T', 'Vec to->T', 'Vec to->&T', '[T;N] into->T', '&[T;N] into->&T', '&[T;N] into->T', '[T;N] to->T', '[T;N] to->&T',
           '&[T] into->&T', '&[T] into->T', '[T] to->&T', '[T] to->T', 'uniform_distribution_of!']
-C18_K = ['Vec collection', 'Bitstring::random', 'Bitstring::random_with_probability', 'Plushy collection', 'population of scored individuals', '', '', 'choice over zero-sized members', 'choice over one-byte members', 'collection of zero-sized elements']
+C18_K = ['Vec collection', 'Bitstring::random', 'Bitstring::random_with_probability', 'Plushy collection', 'population of scored individuals', '', '', 'choice over zero-sized members', 'choice over one-byte members', 'collection of zero-sized elements',
+         'Bitstring::random through two positions', 'Bitstring::random_with_probability, all bits pooled']
 def c18_describe(inp, obs):
     p = inp[2]
     if p[0] == 5:
@@ -675,6 +682,10 @@ def c18_describe(inp, obs):
         return 'owning uniform choice over %d one-byte members (member i = i mod %d), %d draws; observed [num_choices, [[value, count]..]]' % (p[1], p[2], inp[1])
     if p[0] == 9:
         return 'collection of %d zero-sized elements, %d draws; observed [[length, elements ok, count]..]' % (p[1], inp[1])
+    if p[0] == 10:
+        return 'Bitstring::random(%d) seen through positions %d and %d, %d draws; observed [length, [[2*bit_i + bit_j, count]..]]' % (p[1], p[2], p[3], inp[1])
+    if p[0] == 11:
+        return 'Bitstring::random_with_probability(%d, %d/%d), %d draws, all bits pooled; observed [length, [[bit, count]..]]' % (p[1], p[2], p[3], inp[1])
     if p[0] == 6:
         return 'uniform choice, flavour %s, source = the %d members 0..%d, %d draws; observed [num_choices, [[chosen value mod %d (-1: not a member), count]..]]' % (C18_FL[p[1]], p[2], p[2] - 1, inp[1], p[3])
     return '%s of size %d, %d draws; observed [[length, elements ok, count]..]' % (C18_K[p[0]], p[1], inp[1])
@@ -686,7 +697,7 @@ PROPS['C18'] = dict(
     describe=c18_describe, no_shrink=True, nontrivial=lambda i, o: True,
     classify=lambda i, o: ('choice:%s' % C18_FL[i[2][1]]) if i[2][0] in (5, 6, 7) else ('collection:%s' % C18_K[i[2][0]]),
     bucket=lambda i, o: [('flavour=%s' % C18_FL[i[2][1]]) if i[2][0] in (5, 6, 7) else ('collection=%s' % C18_K[i[2][0]]), 'size=%d' % (len(i[2][2]) if i[2][0] == 5 else i[2][2] if i[2][0] in (6, 7) else i[2][1])],
-    rule='collection generators for Vec, Bitstring (both constructors), Plushy and a population of scored individuals at sizes 0, 1, 2, 17, 1000 and around block boundaries (255..257, 1023..1025, 2048, 3072, 4096, 65536) (length of every sample and membership of every element compared exactly); uniform choices built through all 15 conversion flavours (Vec / array / slice, owning / borrowing / cloning, IntoDistribution / ToDistribution, and the uniform_distribution_of! macro) from empty sources (EmptySlice expected) and from sources of 1..6 members incl. duplicates: num_choices (asked directly and through the &T / &mut T forwarding impls, generically and as a trait object) compared exactly, members exactly (zero-probability values are violations), frequencies against 1/len per index; sources of 3*2^23, 2^25 and 2^24+1 members through the Vec and slice flavours, the chosen index judged by residue classes (mod 3, 2, 5) against the class law proved in C18_choice_uniform_classes; zero-sized elements (collections) and sources of 0, 1, 7, 2^32-1, 2^32, 2^32+1, 2^33 zero-sized members (num_choices exact, rejected only when empty); sources of 100, 192, 255, 257 members with 15x the draws; (thorough) 2^32+2 one-byte members.',
+    rule='collection generators for Vec, Bitstring (both constructors), Plushy and a population of scored individuals at sizes 0, 1, 2, 17, 1000 and around block boundaries (255..257, 1023..1025, 2048, 3072, 4096, 65536) (length of every sample and membership of every element compared exactly); uniform choices built through all 15 conversion flavours (Vec / array / slice, owning / borrowing / cloning, IntoDistribution / ToDistribution, and the uniform_distribution_of! macro) from empty sources (EmptySlice expected) and from sources of 1..6 members incl. duplicates: num_choices (asked directly and through the &T / &mut T forwarding impls, generically and as a trait object) compared exactly, members exactly (zero-probability values are violations), frequencies against 1/len per index; sources of 3*2^23, 2^25 and 2^24+1 members through the Vec and slice flavours, the chosen index judged by residue classes (mod 3, 2, 5) against the class law proved in C18_choice_uniform_classes; zero-sized elements (collections) and sources of 0, 1, 7, 2^32-1, 2^32, 2^32+1, 2^33 zero-sized members (num_choices exact, rejected only when empty); sources of 100, 192, 255, 257 members with 15x the draws; random bitstrings seen through pairs of positions 8 / 32 / 64 / 128 apart (four equally likely combinations) and with requested probabilities 0, 1, 0.1, 0.3, 1/256, 255/256, 2^-20 (all bits pooled against the exact binary fraction); (thorough) 2^32+2 one-byte members.',
     trusted=['rand Uniform / slice::Choose as oracles', 'statistical tie with delta = 1e-12 per cell'],
     assumptions=[],
     level_text='Theorems (Props/C18.v): a collection generator yields exactly n elements each drawn from the element generator (and is total); a uniform choice returns only indices of the source, each with probability exactly 1/length (duplicates handled by index), and an empty source is rejected at construction. The elements of a collection are independent draws (product law); the uniform law seen through residue classes of the index (for sources of millions of members). Tied to the code by exact length / membership / num_choices checks for every conversion flavour and by seeded frequencies.',
@@ -707,7 +718,7 @@ PROPS['C09'] = dict(
     nontrivial=lambda i, o: len(i[1]) >= 1,
     classify=lambda i, o: ('serial' if i[0] % 100 == 0 else 'parallel') + ('/genome-scorer' if i[0] >= 100 else ''),
     bucket=lambda i, o: ['mode=%s' % (('serial' if i[0] % 100 == 0 else 'par/%d' % (i[0] % 100)) + ('/genome-scorer' if i[0] >= 100 else '')), 'size=%d' % len(i[1]), 'failure=%s' % ('injected' if 0 <= i[2] < len(i[1]) else 'none')],
-    rule='Generation::serial_next and par_next (rayon pools of 1, 2, 3, 4, 8, 16 threads, 6 / 100 repetitions each) over populations (Vec; also BTreeSet whose children collide so that the size changes between the steps of one Generation value, and VecDeque) of size 0, 1, 2, 7, 64 with an instrumented child maker that records the address and contents of the population it is shown and two words drawn from the generator it is handed, and fails at a chosen call; failure injected at every call position (sampled for size 64), at a position beyond the last call, and not at all. Judged in coqc: exactly n invocations on success, every invocation saw the generation\'s own, unmodified population, all drawn words pairwise distinct, the new population is exactly the children (in call order for serial - computed by the model serial_next from the logged per-call behaviour - as a multiset for parallel), on failure the population equals the old one, the error is the failing child\'s, and serial stepping stops right there. Non-trivial: non-empty population.',
+    rule='Generation::serial_next and par_next (rayon pools of 1, 2, 3, 4, 8, 16 threads, 6 / 100 repetitions each) over populations (Vec; also BTreeSet whose children collide so that the size changes between the steps of one Generation value, and VecDeque) of size 0, 1, 2, 7, 64 (and 3000 under pools of 8 and 16 threads) with an instrumented child maker that records the address and contents of the population it is shown and two words drawn from the generator it is handed, and fails at a chosen call; failure injected at every call position (sampled for size 64), at a position beyond the last call, and not at all. Judged in coqc: exactly n invocations on success, every invocation saw the generation\'s own, unmodified population, all drawn words pairwise distinct - within a step and across all steps of one Generation value (a failed step does not rewind the randomness) -, the new population is exactly the children (in call order for serial - computed by the model serial_next from the logged per-call behaviour - as a multiset for parallel), on failure the population equals the old one, the error is the failing child\'s, and serial stepping stops right there. Non-trivial: non-empty population.',
     trusted=['thread interleavings are SAMPLED, not enumerated; that children cannot mutate the shared population is Rust\'s &P / Sync typing (trusted)',
              'the randomness of Generation is rand::rng() (thread RNG): not seedable, so the judge is relational over the recorded words'],
     assumptions=['distinctness of 64-bit words drawn by different children stands for "own live randomness" (collision probability negligible)'],
@@ -729,7 +740,10 @@ C16_OPS = ['Best', 'Worst', 'Random', 'Tournament(2)', 'Lexicase(2)', 'WeightedP
            'WithOneOverLength Vec<bool> of 1..2 genes with exact / spare capacity', 'WithRate Vec<bool> with exact / spare capacity',
            'Umad::new_with_empty_rate(0.25, 0.95, ..) Bitstring, empty and non-empty genomes in turn (used value met them in the opposite order)',
            'Umad::new_with_empty_rate(0.9, 0.1, ..) Vector, empty and non-empty genomes in turn (used value met them in the opposite order)',
-           'DynWeighted[Best:1, Worst:2, Random:3] built in one go vs used between its builder calls', 'DynWeighted[Best:0, Worst:2, Random:3] built in one go vs used between its builder calls']
+           'DynWeighted[Best:1, Worst:2, Random:3] built in one go vs used between its builder calls', 'DynWeighted[Best:0, Worst:2, Random:3] built in one go vs used between its builder calls',
+           'collection generator Vec<i64> of 20000+ elements (hash)', 'Bitstring::random of 20000+ bits (hash)', 'Plushy collection of 20000+ genes (hash)',
+           'Lexicase(2) whose past is the same population object with other contents (the next generation written into the same variable)',
+           'Best on 10000 individuals in three tie classes', 'Worst on 10000 individuals in three tie classes', 'Tournament(3) on 10000 individuals in three tie classes']
 def c16_describe(inp, obs):
     if inp[0] == 0:
         return '%s, seed %d, data %s; observed [run from a fresh value, run from another fresh value, run from an already-used value], each [[3 results], next generator word]' % (C16_OPS[inp[1]], inp[2], inp[3])
@@ -755,7 +769,7 @@ PROPS['C16'] = dict(
     describe=c16_describe, no_shrink=True, nontrivial=lambda i, o: True,
     classify=lambda i, o: ('op:%s' % C16_OPS[i[1]]) if i[0] == 0 else ('push-input-order' if i[0] == 1 else 'push-many-names' if i[0] == 2 else 'push-colliding-names'),
     bucket=lambda i, o: [('op=%s' % C16_OPS[i[1]]) if i[0] == 0 else ('push permutations=%d' % i[3] if i[0] == 1 else 'push inputs=%d' % i[1] if i[0] == 2 else 'push colliding names')],
-    rule='40 selectors, mutators, recombinators, generators and compositions (selectors also on populations of 8..47 distinct individuals with many ties - where hash order or a cache could decide; vector genomes that are equal as values but differ in spare capacity) exported by the three crates (table in harness/src/c16.rs) x 12 (quick) / 200 (thorough) seeds: a counting loop evaluated for 1.2 million steps (about a second of wall-clock time) must equal the model run; three consecutive calls from (A) a fresh operator value, (B) another fresh value with a generator cloned from the same seed - built and used on ANOTHER THREAD -, (C) a value that was already used five times with another generator - results and the next word of the generator must all coincide (a consult of the thread RNG, global state, or a cache inside the operator shows up as a difference); one entry interleaves two operators on one generator; four entries give the used value a PAST of other kinds of calls (UMAD with distinct empty-genome rate on empty / non-empty genomes in the opposite order; a dynamic weighted selector that was used between its builder calls, also with a zero first weight). Push: programs reading 1, 3, 1000 and 3000 (thorough: 20000) distinctly named inputs, declared forwards, backwards and shuffled, against the closed-form result (length and hash of the int stack); 15 pairs of distinct names that collide under common short hash functions (FNV-1a 32, CRC-32, Java hashCode, djb2) or differ only in case / spacing / Unicode normalisation, bound to different values and declared in either order; 80 (quick) / 600 (thorough) random nested programs with 2-3 bound inputs, evaluated under EVERY permutation of the input declarations and twice from each built state: all runs must coincide and equal the model run (stacks, output bytes, outcome).',
+    rule='47 selectors, mutators, recombinators, generators and compositions (selectors also on populations of 8..47 distinct individuals with many ties - where hash order or a cache could decide; vector genomes that are equal as values but differ in spare capacity) exported by the three crates (table in harness/src/c16.rs) x 12 (quick) / 200 (thorough) seeds: a counting loop evaluated for 1.2 million steps (about a second of wall-clock time) must equal the model run; three consecutive calls from (A) a fresh operator value, (B) another fresh value with a generator cloned from the same seed - built and used on ANOTHER THREAD -, (C) a value that was already used five times with another generator, run inside a rayon pool of three workers - results and the next word of the generator must all coincide (a consult of the thread RNG, global state, or a cache inside the operator shows up as a difference); one entry interleaves two operators on one generator; three entries generate collections of 20000+ elements and three select from 10000 individuals with many ties (sizes at which a blocked or parallel implementation would kick in; results compared through a hash); five entries give the used value a PAST of other kinds of calls (a Lexicase value whose past is the same population object with other contents; (UMAD with distinct empty-genome rate on empty / non-empty genomes in the opposite order; a dynamic weighted selector that was used between its builder calls, also with a zero first weight)). Push: programs reading 1, 3, 1000 and 3000 (thorough: 20000) distinctly named inputs, declared forwards, backwards and shuffled, against the closed-form result (length and hash of the int stack); 15 pairs of distinct names that collide under common short hash functions (FNV-1a 32, CRC-32, Java hashCode, djb2) or differ only in case / spacing / Unicode normalisation, bound to different values and declared in either order; 80 (quick) / 600 (thorough) random nested programs with 2-3 bound inputs, evaluated under EVERY permutation of the input declarations and twice from each built state: all runs must coincide and equal the model run (stacks, output bytes, outcome).',
     trusted=['that equal observable results and an equal next word mean equal generator states (SplitMix64 state = one word)'],
     assumptions=['"the code is a function of its arguments" is decided code-against-code: a Gallina model is deterministic by construction and cannot carry that claim'],
     level_text='Theorems (Props/C16.v): named inputs resolve independently of declaration order (lookup is invariant under permutation of a duplicate-free list) and therefore the whole evaluation of any program is - same stacks, output, limits, outcome, step count; a program that reads any number of distinctly named integer inputs once each ends, for every declaration order, with exactly their values on the int stack (C16_reads_any_declaration_order - the closed form the many-names cases are compared with; for up to 3000 inputs the judge also runs the interpreter model on that program); combinators have no hidden state (the threaded state after a composition is what its parts left). Stream locality: an operator that uses only the generator it is handed depends only on the consumed stretch of the stream; drawing is local and every combinator preserves locality, so equal generator states give equal results and equal positions for every composition (C16_combinators_preserve_locality, C16_equal_generator_states_equal_results). The remaining half - no randomness or state other than the generator handed in - is decided by double runs from cloned generators on fresh and on used operator values, and by permuting input declarations.',
